@@ -110,7 +110,9 @@ def answer (fn : String) (bytes : List UInt8) (a1 a2 : Option Nat) : String :=
   | "readdata1w" =>
     showData (readData1 ⟨fun _ => false, knownC05a, fun _ => false⟩ C05.entNmArrGuard C05.skipInstanceSkipsComments true C05.readCommentIters
       C05.maxErrorCount fuel (IS.ofBytes bytes))
-  | "recover" => showLoop (fun r => s!"len={r.len} ") (recoveryScan fuel (IS.ofBytes bytes) (UInt8.ofNat n))
+  | "recover" =>
+    showLoop (fun _ => "") (stepReadNoAttrs C05.recoveryScanStaysInRecord C05.recoveryScanPutsBackSemi C05.skipInstanceSkipsComments
+      C05.readCommentIters fuel (IS.ofBytes bytes))
   | "exportlist" => showLoop (fun _ => "") (exportLoop C05.exportLoopChecksStreamCreate C05.skipInstanceSkipsComments C05.readCommentIters fuel (IS.ofBytes bytes) chComma 0)
   | _ => "bad-op"
 
